@@ -874,6 +874,8 @@ def run(ctx):
     rule_bundle_protocol(F, R)
     rule_decided_exits(F, R)
     rule_aggregate_fresh(F, R)
+    from . import c19
+    c19.rule_read_kind(F, R, rule="R-C03-14", floor=1)
     from . import c01
     nn = c01.rule_noalias(F, R, rule="R-C03-13")
     R.floor("R-C03-13", nn, 2, "noalias assignments of the ellipsoid update")
